@@ -2930,10 +2930,11 @@ fn write_reference_immediately(
 
 /// Compute reverse complement of a sequence
 fn reverse_complement_sequence(seq: &[u8]) -> Vec<u8> {
-    use crate::kmer::reverse_complement;
+    // Only A/C/G/T are complemented; N and the IUPAC ambiguity codes keep their value
+    // (the reader's reverse_complement_segment leaves them unchanged as well).
     seq.iter()
         .rev()
-        .map(|&base| reverse_complement(base as u64) as u8)
+        .map(|&base| if base < 4 { 3 - base } else { base })
         .collect()
 }
 
